@@ -37,6 +37,9 @@ type Scenario struct {
 	Toks  []Tok           `json:"toks"`
 	Split []int           `json:"split"`
 	Key   string          `json:"key"`
+	Set   abs.Strs        `json:"set"`
+	Clr   abs.Strs        `json:"clr"`
+	Extra bool            `json:"extra"`
 	A     json.RawMessage `json:"a"`
 	B     json.RawMessage `json:"b"`
 }
@@ -123,6 +126,70 @@ func one(n int, s Scenario, raw string) rec.Event {
 	case "marker":
 		k, marked := api.IsMarkedForRemoval(s.Key)
 		ev["key"], ev["marked"], ev["mark"], ev["clear"] = k, marked, api.MarkForRemoval(s.Key), api.ClearRemovalMarker(s.Key)
+	case "plugin-name":
+		name := s.Key
+		if name == "ARABIC-a" {
+			name = "\u0660\u0661-a"
+		}
+		idx, base, err := api.ParsePluginName(name)
+		et := ""
+		if err != nil {
+			et = err.Error()
+		}
+		ev["idx"], ev["base"], ev["err"], ev["idxok"] = idx, base, et, api.CheckPluginIndex(name) == nil
+	case "mask":
+		evOf := func(nm string) api.Event {
+			for b, n := range names {
+				if n == nm {
+					return api.Event(b + 1)
+				}
+			}
+			return api.Event_UNKNOWN
+		}
+		var m api.EventMask
+		for _, nm := range s.Set {
+			m.Set(evOf(nm))
+		}
+		if len(s.Clr) > 0 {
+			var evs []api.Event
+			for _, nm := range s.Clr {
+				evs = append(evs, evOf(nm))
+			}
+			m.Clear(evs...)
+		}
+		got, isset := []string{}, []string{}
+		for b, nm := range names {
+			if m&(1<<uint(b)) != 0 {
+				got = append(got, nm)
+			}
+			if m.IsSet(api.Event(b + 1)) {
+				isset = append(isset, nm)
+			}
+		}
+		if s.Extra {
+			m |= 1 << 19
+		}
+		before := m
+		pretty := m.PrettyString()
+		parts := []string{}
+		if pretty != "" {
+			parts = strings.Split(pretty, ",")
+		}
+		rm, rerr := api.ParseEventMask(pretty)
+		reparsed := []string{}
+		for b, nm := range names {
+			if rm&(1<<uint(b)) != 0 {
+				reparsed = append(reparsed, nm)
+			}
+		}
+		ret := ""
+		if rerr != nil {
+			ret = rerr.Error()
+		}
+		if m != before {
+			ret = "PrettyString changed the mask"
+		}
+		ev["names"], ev["isset"], ev["pretty"], ev["reparsed"], ev["reparse_err"] = got, isset, parts, reparsed, ret
 	case "cmp-mount":
 		var a, b Mnt
 		json.Unmarshal(s.A, &a)
